@@ -19,8 +19,12 @@ import (
 	rm "github.com/openfga/openfga/internal/verifsim/refmodel"
 	"github.com/openfga/openfga/internal/verifsim/simrt"
 	"github.com/openfga/openfga/internal/verifsim/simstore"
+	"github.com/openfga/openfga/internal/modelgraph"
+	"github.com/openfga/openfga/internal/planner"
 	"github.com/openfga/openfga/pkg/logger"
 	"github.com/openfga/openfga/pkg/server"
+	"github.com/openfga/openfga/pkg/server/commands"
+	"github.com/openfga/openfga/pkg/tuple"
 )
 
 // runBubble is the common frame: build Env, run body, close.
@@ -683,7 +687,44 @@ func c03Gen(runSeed uint64, tier string) *gen.Scenario {
 	if g.Chance(0.2) {
 		sc.Knobs["faults"] = int64(simstore.FaultOpenErr | simstore.FaultIterErr)
 	}
+	if g.Chance(0.15) {
+		// directed shape: deep self-recursive relations over many objects, faults in half of them
+		sc.Model, sc.Tuples, sc.Requests = g.DeepRecursive()
+		if g.Chance(0.5) {
+			sc.Knobs["faults"] = int64(simstore.FaultOpenErr | simstore.FaultIterErr)
+			sc.Knobs["fault_rate_pm"] = 80
+		}
+	}
+	// object-subject requests also go through the weighted-graph command with the simulator's planner
+	// (every strategy the planner may pick, not only the one its statistics favour)
+	sc.Knobs["v2_cmd"] = int64(g.Intn(2))
 	return sc
+}
+
+// v2Command issues one Check through the weighted-graph command (what Server.v2Check builds) with
+// the simulator's planner.
+func (e *Env) v2Command(ctx context.Context, rq gen.Request, pl planner.Manager) (bool, error) {
+	mg, err := modelgraph.New(e.Model)
+	if err != nil {
+		return false, err
+	}
+	q := commands.NewCheckQuery(
+		commands.WithCheckQueryV2Datastore(e.DS),
+		commands.WithCheckQueryV2Model(mg),
+		commands.WithCheckQueryV2Planner(pl),
+		commands.WithCheckQueryV2ConcurrencyLimit(int(e.Sc.Knob("breadth", 25))),
+		commands.WithCheckQueryV2UpstreamTimeout(3*time.Second),
+	)
+	res, err := q.Execute(ctx, &commands.CheckCommandParams{
+		StoreID:          e.StoreID,
+		TupleKey:         tuple.NewCheckRequestTupleKey(rq.Obj, rq.Rel, rq.User),
+		ContextualTuples: CtxTupleKeys(rq.CtxTuples),
+		Context:          rm.MustStruct(rq.Ctx),
+	})
+	if err != nil {
+		return false, err
+	}
+	return res.Allowed, nil
 }
 
 func c03Exec(t *testing.T, sc *gen.Scenario, trace bool) *harness.Outcome {
@@ -709,12 +750,23 @@ func c03Exec(t *testing.T, sc *gen.Scenario, trace bool) *harness.Outcome {
 		}
 		e.cleanup = e1.cleanup
 		faulty := sc.Knob("faults", 0) != 0
+		v2pl := simstore.NewPlanner(e.Run, int(sc.Knob("plan_policy", 0)))
 		for i, rq := range sc.Requests {
 			lg.take()
 			ctx, cancel := reqCtx(i, ".v2", 10*time.Second)
+			firedBefore := e.FiredTotal()
 			a2, err2 := e.SrvCheck(ctx, v2, rq)
 			cancel()
 			warns := lg.take()
+			faultTag := ""
+			if faulty && err2 == nil {
+				faultTag = e.FaultTag(firedBefore, a2, func() (bool, error) {
+					ctx, cancel := reqCtx(i, ".v2nofault", 10*time.Second)
+					defer cancel()
+					return e.SrvCheck(ctx, v2, rq)
+				})
+				lg.take()
+			}
 			fellBack, reported := false, false
 			for _, w := range warns {
 				if strings.Contains(w, "falling back") {
@@ -750,10 +802,41 @@ func c03Exec(t *testing.T, sc *gen.Scenario, trace bool) *harness.Outcome {
 				if ReachesKind(sc.Model, rm.ObjType(rq.Obj), rq.Rel, rm.Difference) {
 					e.SigExtra += " reaches_exclusion"
 				}
+				if b := sc.Knob("breadth", 25); b <= 2 && err2 != nil && (strings.Contains(err2.Error(), "Deadline") || strings.Contains(err2.Error(), "deadline")) {
+					e.SigExtra += fmt.Sprintf(" deadline_with_breadth_limit=%d", b)
+				}
+				tags := e.SigExtra
+				e.SigExtra += faultTag
 				e.JudgeCheck("v2", rq, st, a2, err2, faulty)
 				e.SigExtra = ""
 				if e.Out.Violation != nil {
 					return
+				}
+				if sc.Knob("v2_cmd", 0) == 1 {
+					// the same request through the command with a forced strategy choice; an error here is
+					// what the server would answer by falling back to the default engine, so only a definite
+					// answer is judged
+					ctx, cancel := reqCtx(i, ".v2cmd", 10*time.Second)
+					firedBefore := e.FiredTotal()
+					a3, err3 := e.v2Command(ctx, rq, v2pl)
+					cancel()
+					if err3 != nil {
+						simrt.Probe("v2_command_error")
+						continue
+					}
+					e.SigExtra = tags + " v2_command"
+					if faulty {
+						e.SigExtra += e.FaultTag(firedBefore, a3, func() (bool, error) {
+							ctx, cancel := reqCtx(i, ".v2cmdnofault", 10*time.Second)
+							defer cancel()
+							return e.v2Command(ctx, rq, v2pl)
+						})
+					}
+					e.JudgeCheck("v2cmd", rq, st, a3, nil, faulty)
+					e.SigExtra = ""
+					if e.Out.Violation != nil {
+						return
+					}
 				}
 				continue
 			}
@@ -1009,6 +1092,10 @@ func c04Exec(t *testing.T, sc *gen.Scenario, trace bool) *harness.Outcome {
 			}
 			judge(a, "ctx")
 			judge(b, "stored")
+			if rq.Kind == "listusers" && a.s != b.s && ListUsersEquivalent(strings.Split(a.s, ","), strings.Split(b.s, ",")) {
+				simrt.Probe("listusers_answers_differ_in_wildcard_covered_users")
+				return
+			}
 			if e.Out.Violation == nil && a.s != b.s && !truncated {
 				e.Violate("contextual_differs_from_stored", "kind="+rq.Kind, "%s %+v: with contextual tuples: %s; with the same tuples stored: %s", rq.Kind, rq, a.s, b.s)
 			}
